@@ -370,7 +370,7 @@ func (f *File) Lower() *descriptorpb.FileDescriptorProto {
 		}
 	}
 	for _, im := range SortedKeys(l.imports) {
-		if f.Via != "" && (im == AnnotationsPath || im == HeadersPath) {
+		if f.Via != "" && (im == AnnotationsPath || im == HeadersPath || (f.ViaAll && im == ValidatePath)) {
 			im = f.Via
 		}
 		if !seen[im] {
